@@ -294,6 +294,27 @@ CHECKS["C20"] = dict(
          "alignment, aliasing between arguments and the f2py-generated wrapper code itself are not analysed. Found and fixed: "
          "cluster1d, sparse_localmaxlabel and compress_duplicates touched element 0 of empty arrays.")
 
+# rules added after the third round of independently seeded changes (one sentence each; the full statements are in the evidence files)
+ADDED = {
+    "C01": " (R3 now also runs the numba / reference comparison for every on/off combination of t_x, t_y, t_z, so 'no translation' shortcuts are taken exactly when they apply.)",
+    "C02": " (R7) compute_xyz_from_tth_eta masks a projected position only where the ray . detector-normal product is zero - never by its sign, which flips with the handedness of the detector axes.",
+    "C07": " (R5) the value score_and_assign returns is never kept as a per-grain count; fight_over_peaks derives the counts from the final label array after all grains competed.",
+    "C08": " (R8) unitcell.getanglehkls drops its ring-number keyed cache whenever makerings may have renumbered the rings (the validity test compares a stamp makerings rewrites, and B).",
+    "C09": " (R8) grain.__init__ copies the translation it is given (refinepositions stores refined positions in place, so grains must not share the array).",
+    "C10": " R2 also shows that the tensor an object returns does not depend on which tensors it was asked for before (memo tables / cached decompositions).",
+    "C12": " R1 requires the field compared in a min / max update to be the field updated and the value taken to be the value compared.",
+    "C14": " R3 requires the int8 mask tests of mask_to_coo to be (in)equalities with zero (sign-agnostic), decides the merge kernels by finite case analysis over the key orderings, and checks the last run of compress_duplicates semantically.",
+    "C15": " R2 is a path property on the flow graph (every path to the renumbering passes 'latest sweep count == 0') and requires that the edge arrays are never rebound between sweeps.",
+    "C16": " (R6) outside sym_u, group operators are only multiplied from the left onto a UBI, never onto U / U^T / UB.",
+    "C17": " R1 also requires set_attributes to re-point every attribute on every path (no early exit for special tables).",
+    "C18": " R3 flags an exact == between int(value) and float(value) in the parameter type coercion (false beyond 2**53).",
+    "C19": " R2 reads get_voxel_idx through its temporaries before comparing with geometry.dty_values_grain_in_beam_sincos.",
+    "C20": " R6 keys its confirmed sites by (array, flat index polynomial, linear facts) instead of source text, analyses helpers inside their callers, covers memset / memcpy, and raises a violation only with positive evidence (a recorded guarded access that lost its proof, a witness that passes every dominating test, an unchecked input element used as index, an affine witness).",
+}
+for _k, _v in ADDED.items():
+    if _k in CHECKS and _v not in CHECKS[_k]["text"]:
+        CHECKS[_k]["text"] = CHECKS[_k]["text"] + _v
+
 NOT_YET = {}
 
 NOT_APPLICABLE = {
